@@ -241,3 +241,138 @@ Proof.
   exact (interleave_inv (tmps xs) (tmps ys) (version_of (xs ++ ys)) D sch _ _ s s s
            (fun _ _ => eq_refl) (fun _ _ => eq_refl) Ha Hb n p NA NB).
 Qed.
+
+(* ================================================================ completion *)
+(* when neither update is hit by a fault and the interleaving runs to its end, every state file one of them targets
+   holds a complete NEW version (of the update that renamed last) *)
+Definition op_strict (loc : fs) (o : fsop) : Prop :=
+  match o with Rename p _ => exists c, read p loc = Some c | _ => True end.
+Fixpoint strict_trace (loc : fs) (l : list fsop) : Prop :=
+  match l with [] => True | o :: r => op_strict loc o /\ strict_trace (apply o loc) r end.
+
+Lemma strict_trace_app l1 : forall loc l2, strict_trace loc (l1 ++ l2) <-> strict_trace loc l1 /\ strict_trace (run l1 loc) l2.
+Proof.
+  induction l1 as [|o r IH]; intros loc l2; cbn [app strict_trace].
+  - cbn. tauto.
+  - change (run (o :: r) loc) with (run r (apply o loc)). rewrite IH. tauto.
+Qed.
+
+Lemma strict_on_tmp t l : Forall (on_tmp t) l -> forall loc, strict_trace loc l.
+Proof.
+  induction 1 as [|o r Ho _ IH]; intros loc; [exact I|]. split; [|apply IH].
+  destruct o; cbn in Ho |- *; try exact I. contradiction.
+Qed.
+
+Definition touched (V : path -> string -> Prop) (p : path) (s : fs) : Prop := exists c, read p s = Some c /\ V p c.
+Definition renames_to (p : path) (l : list fsop) : Prop := exists t, In (Rename t p) l.
+
+Lemma old_or_touched V p s s' : touched V p s -> old_or V p s s' -> touched V p s'.
+Proof.
+  intros [c [R Hv]] [E|[c' [R' Hv']]]; [exists c; split; [congruence|exact Hv]|exists c'; split; assumption].
+Qed.
+
+Lemma step_rename (T T' : path -> Prop) V t p loc s :
+  agree T loc s -> op_ok T T' V loc (Rename t p) -> op_strict loc (Rename t p) -> touched V p (apply (Rename t p) s).
+Proof.
+  intros A [Ht [_ [_ HV]]] [c Hc]. cbn. rewrite <- (A t Ht), Hc. exists c. split; [apply read_write_same|apply HV; exact Hc].
+Qed.
+
+Lemma solo_touch (T T' : path -> Prop) V p : (forall q, T q -> T' q -> False) -> ~ T p -> ~ T' p ->
+  forall l loc loc' s, agree T loc s -> agree T' loc' s -> ok_trace T T' V loc l -> strict_trace loc l ->
+  touched V p s \/ renames_to p l -> touched V p (run l s).
+Proof.
+  intros D N N'. induction l as [|o r IH]; intros loc loc' s A A' H S C.
+  - destruct C as [C|[t []]]. exact C.
+  - destruct H as [H1 H2]. destruct S as [S1 S2].
+    destruct (step_owner T T' V o loc loc' s D A A' H1) as [B [B' P]].
+    change (run (o :: r) s) with (run r (apply o s)).
+    apply (IH _ _ _ B B' H2 S2).
+    destruct C as [C|[t [E|I0]]].
+    + left. eapply old_or_touched; [exact C|apply P; assumption].
+    + subst o. left. exact (step_rename T T' V t p loc s A H1 S1).
+    + right. exists t. exact I0.
+Qed.
+
+Theorem interleave_complete (TA TB : path -> Prop) V p : (forall q, TA q -> TB q -> False) -> ~ TA p -> ~ TB p ->
+  forall sch a b la lb s, agree TA la s -> agree TB lb s ->
+  ok_trace TA TB V la a -> ok_trace TB TA V lb b -> strict_trace la a -> strict_trace lb b ->
+  touched V p s \/ renames_to p a \/ renames_to p b -> touched V p (run (interleave sch a b) s).
+Proof.
+  intros D N N'. assert (D' : forall q, TB q -> TA q -> False) by (intros q X Y; exact (D q Y X)).
+  induction sch as [|w r IH]; intros a b la lb s A B Ha Hb Sa Sb C.
+  - cbn [interleave]. rewrite run_app.
+    destruct (solo TA TB V D a la lb s A B Ha) as [A1 [B1 _]].
+    apply (solo_touch TB TA V p D' N' N b lb (run a la) _ B1 A1 Hb Sb).
+    destruct C as [C|[C|C]].
+    + left. apply (solo_touch TA TB V p D N N' a la lb s A B Ha Sa). left. exact C.
+    + left. apply (solo_touch TA TB V p D N N' a la lb s A B Ha Sa). right. exact C.
+    + right. exact C.
+  - destruct w; cbn [interleave].
+    + destruct a as [|o a'].
+      * apply (solo_touch TB TA V p D' N' N b lb la s B A Hb Sb). destruct C as [C|[[t []]|C]]; [left|right]; exact C.
+      * destruct Ha as [H1 H2]. destruct Sa as [S1 S2].
+        destruct (step_owner TA TB V o la lb s D A B H1) as [A1 [B1 P]].
+        change (run (o :: ?l) s) with (run l (apply o s)).
+        apply (IH a' b _ lb _ A1 B1 H2 Hb S2 Sb).
+        destruct C as [C|[[t [E|I0]]|C]].
+        -- left. eapply old_or_touched; [exact C|apply P; assumption].
+        -- subst o. left. exact (step_rename TA TB V t p la s A H1 S1).
+        -- right. left. exists t. exact I0.
+        -- right. right. exact C.
+    + destruct b as [|o b'].
+      * apply (solo_touch TA TB V p D N N' a la lb s A B Ha Sa). destruct C as [C|[C|[t []]]]; [left|right]; exact C.
+      * destruct Hb as [H1 H2]. destruct Sb as [S1 S2].
+        destruct (step_owner TB TA V o lb la s D' B A H1) as [B1 [A1 P]].
+        change (run (o :: ?l) s) with (run l (apply o s)).
+        apply (IH a b' la _ _ A1 B1 Ha H2 Sa S2).
+        destruct C as [C|[C|[t [E|I0]]]].
+        -- left. eapply old_or_touched; [exact C|apply P; assumption].
+        -- right. left. exact C.
+        -- subst o. left. exact (step_rename TB TA V t p lb s B H1 S1).
+        -- right. right. exists t. exact I0.
+Qed.
+
+Lemma exec_strict xs : Forall good xs -> forall b loc, strict_trace loc (exec xs b NoFault).
+Proof.
+  induction 1 as [|x r G _ IH]; intros b loc; [exact I|].
+  cbn [exec]. apply strict_trace_app. split; [|apply IH].
+  pose proof G as [Hi _]. rewrite body_good by exact Hi. apply strict_trace_app. split; [apply (strict_on_tmp (tmp x)); apply pre_on_tmp|].
+  cbn [strict_trace op_strict]. split; [|exact I]. rewrite run_pre_tmp. eexists. reflexivity.
+Qed.
+
+Lemma exec_renames xs x : Forall good xs -> In x xs -> forall b, renames_to (dst x) (exec xs b NoFault).
+Proof.
+  intros G. induction G as [|y r Gy _ IH]; intros Hx b; [destruct Hx|].
+  cbn [exec]. destruct Hx as [<-|Hx].
+  - exists (tmp y). apply in_or_app. left. destruct Gy as [Hi _]. rewrite body_good by exact Hi.
+    apply in_or_app. right. left. reflexivity.
+  - destruct (IH Hx true) as [t Ht]. exists t. apply in_or_app. right. exact Ht.
+Qed.
+
+Theorem overlap_complete (xs ys : list txn) : Forall good xs -> Forall good ys ->
+  (forall x y, In x xs -> In y ys -> tmp x <> tmp y) ->
+  (forall x y, In x (xs ++ ys) -> In y (xs ++ ys) -> tmp x <> dst y) ->
+  forall x, In x (xs ++ ys) -> forall sch s,
+    exists c, read (dst x) (run (interleave sch (exec xs true NoFault) (exec ys true NoFault)) s) = Some c /\
+              version_of (xs ++ ys) (dst x) c.
+Proof.
+  intros Gx Gy Dt Dd x Hx sch s.
+  assert (D : forall q, tmps xs q -> tmps ys q -> False).
+  { intros q [a [Ha Ea]] [b [Hb Eb]]. apply (Dt a b Ha Hb). congruence. }
+  assert (Nd : forall (zs : list txn), (forall z, In z zs -> In z (xs ++ ys)) ->
+               forall z, In z (xs ++ ys) -> ~ tmps zs (dst z)).
+  { intros zs Hz z Iz [w [Hw E]]. apply (Dd w z); [apply Hz; exact Hw|exact Iz|exact E]. }
+  assert (Ha : ok_trace (tmps xs) (tmps ys) (version_of (xs ++ ys)) s (exec xs true NoFault)).
+  { apply (ok_trace_mono _ _ (version_of xs)); [intros; apply version_app_l; assumption|].
+    apply exec_disciplined; [exact Gx|]. intros a Ia. split; apply Nd; try (apply in_or_app; left; exact Ia);
+      intros z Hz; apply in_or_app; [left|right]; exact Hz. }
+  assert (Hb : ok_trace (tmps ys) (tmps xs) (version_of (xs ++ ys)) s (exec ys true NoFault)).
+  { apply (ok_trace_mono _ _ (version_of ys)); [intros; apply version_app_r; assumption|].
+    apply exec_disciplined; [exact Gy|]. intros b Ib. split; apply Nd; try (apply in_or_app; right; exact Ib);
+      intros z Hz; apply in_or_app; [right|left]; exact Hz. }
+  assert (NA : ~ tmps xs (dst x)) by (apply Nd; [intros z Hz; apply in_or_app; left; exact Hz|exact Hx]).
+  assert (NB : ~ tmps ys (dst x)) by (apply Nd; [intros z Hz; apply in_or_app; right; exact Hz|exact Hx]).
+  apply (interleave_complete (tmps xs) (tmps ys) (version_of (xs ++ ys)) (dst x) D NA NB sch _ _ s s s
+           (fun _ _ => eq_refl) (fun _ _ => eq_refl) Ha Hb (exec_strict xs Gx true s) (exec_strict ys Gy true s)).
+  right. apply in_app_or in Hx. destruct Hx as [Hx|Hx]; [left|right]; apply exec_renames; assumption.
+Qed.
